@@ -4,6 +4,7 @@ a SERDES-TABLE (proof, K8)  b VALIDATE  c FLOATGUARD (K9)  d HANDLE (K6)
 e SETPATH.  Not decided: callback-backed areas and callback validators (user
 code); 'storage unchanged' beyond the library's own writes."""
 from .. import cast, sym, lin, bitdom, fclass
+from .common import distinct_enums
 from ..sym import C, fmt, linearize as L
 from ..lin import Lin
 from ..bitdom import BV, Ptr, RecordSym
@@ -546,6 +547,7 @@ def run(ck):
     ck.rule('C01.e', 'set path order validate -> can-write -> serialise -> write(tail); no write on failing paths; the unchecked variant differs only by the validator; get reads the window set writes')
     ck.not_decided += ['callback-backed areas and callback validators (user code)', 'storage unchanged beyond the library\'s own writes']
     R = Regs(ck)
+    distinct_enums(ck, R.u, 'C01.a', ('REG_TYPE_', 'REGV_TYPE_'), 'include/ufw/register-table.h')
     sd = rule_a(ck, R)
     rule_b(ck, R)
     rule_c(ck, R, sd)
